@@ -25,7 +25,7 @@ def shards(tier):
 
 
 def required_classes(tier):
-    return ["add:generic", "add:P=Q", "add:P=-Q", "add:identity", "multiply:n=0", "multiply:n<0", "multiply:n>=N", "multiply:random", "multiply:bit-pattern", "multiply:int-subclass", "soak:distinct-scalars", "multiply:endomorphism-eigenvalue", "add:near-x", "inv:small-and-structured", "multiply:hash-colliding", "add:shared-coordinate", "add:hash-colliding",
+    return ["add:generic", "add:P=Q", "add:P=-Q", "add:identity", "multiply:n=0", "multiply:n<0", "multiply:n>=N", "multiply:random", "privtopub:window-around-N", "privtopub:key>=N", "multiply:bit-pattern", "multiply:int-subclass", "soak:distinct-scalars", "multiply:endomorphism-eigenvalue", "add:near-x", "inv:small-and-structured", "multiply:hash-colliding", "add:shared-coordinate", "add:hash-colliding",
             "privtopub", "W4:pairs", "W4:scalars", "constants"]
 
 
@@ -186,6 +186,17 @@ def real_curve(rec, s):
     except ImportError:
         cec = None
         rec.notes["openssl_oracle"] = "cryptography not importable: skipped"
+    window = list(range(N - 40, N + 1200)) if (rec.shard == 3 or not quick) else []
+    extra = [N, N + 1, N + 2, (1 << 256) - 1, (1 << 256) - 2, (1 << 255), N + (1 << 128) % 1000] + [rng.randrange(N, 1 << 256) for _ in range(4)]
+    if window:
+        rec.case("privtopub:window-around-N", None, nontrivial=False)
+        for d in window:
+            call(s.privtopub, d.to_bytes(32, "big"))
+    else:
+        rec.case("privtopub:window-around-N", None, nontrivial=False)
+    for d in extra:
+        rec.case("privtopub:key>=N", ("privN", d))
+        call(s.privtopub, d.to_bytes(32, "big"))
     for d in [1, 2, N - 1, N - 2] + [rng.randrange(1, N) for _ in range(10 if quick else 100)]:
         i += 1
         if not rec.mine(i):
